@@ -80,15 +80,18 @@ type recorder struct {
 
 	injects    []inject
 	faulted    map[int]string // cid -> fatal fault injected on its behalf
+	closing    map[int]bool   // cid -> its OnClose has started
 	counters   map[string]int
 	injected   []string
 	shutdown   bool
 	stopLogged bool
+	dialUDP    bool
+	client     bool
 }
 
 func newRecorder() *recorder {
 	r := &recorder{fdCid: map[int]int{}, owned: map[int]string{}, delivered: map[int][]byte{},
-		handed: map[int]int{}, handedB: map[int][]byte{}, faulted: map[int]string{}, counters: map[string]int{}, canaries: map[int]*net.UDPConn{},
+		handed: map[int]int{}, handedB: map[int][]byte{}, faulted: map[int]string{}, closing: map[int]bool{}, counters: map[string]int{}, canaries: map[int]*net.UDPConn{},
 		loopEpfd: -1, loopEfd: -1, accEpfd: -1}
 	r.cond = sync.NewCond(&r.mu)
 	return r
@@ -232,7 +235,7 @@ func (r *recorder) Before(c *vunix.Call) {
 	}
 	// ---- descriptor ledger: every call names a descriptor the framework must own
 	switch c.Name {
-	case "read", "write", "writev", "readv", "close", "accept4", "accept", "recvfrom", "sendto", "send", "epoll_wait", "fcntl":
+	case "read", "write", "writev", "readv", "close", "accept4", "accept", "recvfrom", "sendto", "send", "epoll_wait":
 		r.checkOwned(c, c.Fd, g)
 	case "epoll_ctl":
 		r.checkOwned(c, c.Fd, g)
@@ -338,7 +341,7 @@ func (r *recorder) maybeInject(c *vunix.Call, name string) {
 		}
 		transient := in.kind == "eagain" || in.kind == "eintr"
 		if !transient {
-			if cid, ok := r.fdCid[fd]; ok {
+			if cid, ok := r.fdCid[fd]; ok && !r.closing[cid] {
 				r.faulted[cid] = name + ":" + in.kind
 			}
 			if name == "read" || name == "wr" || name == "epctl-mod" || name == "epctl-add" {
@@ -384,6 +387,13 @@ func (r *recorder) After(c *vunix.Call) {
 	case "fcntl":
 		if c.Err == nil && c.Arg == unix.F_DUPFD_CLOEXEC {
 			r.owned[c.Ret] = "dup"
+			if r.client && !r.onLoop(g) {
+				// Client.Dial/Enroll: the dup'ed socket travels to the loop in a register task
+				cid := r.nextCid
+				r.nextCid++
+				r.fdCid[c.Ret] = cid
+				r.add("op", tr.L("dial", tr.I(c.Ret), tr.B(r.dialUDP)))
+			}
 		}
 	case "close":
 		if !c.Skip {
